@@ -216,6 +216,21 @@ func (p *c17) requiredFields(x *res, ctx *runner.Ctx) {
 		{"put-empty-table-name", adapt.Op{Kind: adapt.OpPut, Table: "", Item: val.Item{"h": val.Str("k")}}},
 		{"scan-empty-table-name", adapt.Op{Kind: adapt.OpScan, Table: ""}},
 		{"batchwrite-empty", adapt.Op{Kind: adapt.OpBatchWrite}},
+		// requests with TWO defects: which one is reported does not depend on the client
+		{"put-missing-table-and-unused-value", adapt.Op{Kind: adapt.OpPut, Table: "nosuchtable17", Item: val.Item{"h": val.Str("k")}, Cond: "attribute_not_exists(h)", Values: val.Item{":unused": val.Num("1")}}},
+		{"put-missing-table-and-unused-name", adapt.Op{Kind: adapt.OpPut, Table: "nosuchtable17", Item: val.Item{"h": val.Str("k")}, Cond: "attribute_not_exists(h)", Names: map[string]string{"#unused": "status"}}},
+		{"put-missing-table-and-undefined-name", adapt.Op{Kind: adapt.OpPut, Table: "nosuchtable17", Item: val.Item{"h": val.Str("k")}, Cond: "attribute_not_exists(#n)"}},
+		{"delete-missing-table-and-unused-value", adapt.Op{Kind: adapt.OpDelete, Table: "nosuchtable17", Key: val.Item{"h": val.Str("k")}, Cond: "attribute_exists(h)", Values: val.Item{":unused": val.Num("1")}}},
+		{"delete-missing-table-and-malformed-name-key", adapt.Op{Kind: adapt.OpDelete, Table: "nosuchtable17", Key: val.Item{"h": val.Str("k")}, Cond: "attribute_exists(h)", Names: map[string]string{"unused": "status"}}},
+		{"update-missing-table-and-unused-value", adapt.Op{Kind: adapt.OpUpdate, Table: "nosuchtable17", Key: val.Item{"h": val.Str("k")}, Update: "SET a = :v", Values: val.Item{":v": val.Str("x"), ":unused": val.Num("1")}}},
+		{"get-missing-table-and-reserved-projection", adapt.Op{Kind: adapt.OpGet, Table: "nosuchtable17", Key: val.Item{"h": val.Str("k")}, Proj: "name"}},
+		{"scan-missing-table-and-unused-name", adapt.Op{Kind: adapt.OpScan, Table: "nosuchtable17", Names: map[string]string{"#unused": "status"}}},
+		{"query-missing-table-and-no-key-condition", adapt.Op{Kind: adapt.OpQuery, Table: "nosuchtable17", NoKC: true}},
+		{"query-unknown-index-and-unused-value", adapt.Op{Kind: adapt.OpQuery, Table: spec.Name, Index: "nosuchindex", KeyCnd: "h = :h", Values: val.Item{":h": val.Str("k"), ":unused": val.Num("1")}}},
+		{"scan-unknown-index-and-bad-start-key", adapt.Op{Kind: adapt.OpScan, Table: spec.Name, Index: "nosuchindex", Start: val.Item{"nokey": val.Str("x")}}},
+		{"put-malformed-key-and-unused-value", adapt.Op{Kind: adapt.OpPut, Table: spec.Name, Item: val.Item{"nokey": val.Str("k")}, Cond: "attribute_not_exists(h)", Values: val.Item{":unused": val.Num("1")}}},
+		{"put-ill-typed-key-and-false-condition", adapt.Op{Kind: adapt.OpPut, Table: spec.Name, Item: val.Item{"h": val.Num("1")}, Cond: "attribute_exists(h)"}},
+		{"delete-false-condition-and-malformed-value", adapt.Op{Kind: adapt.OpDelete, Table: spec.Name, Key: val.Item{"h": val.Str("k")}, Cond: "attribute_exists(nosuch) AND a = :n", Values: val.Item{":n": val.V{K: val.KN, Str: "abc"}}}},
 		// what the SDK structures can express although it is no attribute value: both clients give the same answer
 		{"put-null-false", adapt.Op{Kind: adapt.OpPut, Table: spec.Name, Item: val.Item{"h": val.Str("k"), "a": val.Invalid("null-false")}}},
 		{"put-null-false-nested", adapt.Op{Kind: adapt.OpPut, Table: spec.Name, Item: val.Item{"h": val.Str("k"), "a": val.List(val.Map(map[string]val.V{"x": val.Invalid("null-false")}))}}},
